@@ -157,13 +157,8 @@ def _check_rh(case, ctx, uniform):
                     % (what, _short(sorted(results[0][1])), _short(sorted(r[1]))), key="seed")
         ctx.label("seed argument")
     else:
-        # no seed argument: the global state is the seed
-        g0 = case["gseeds"][0]
-        again = call(g0)
-        nodes, edges = _obs_generated(again, what)
-        require((Counter(nodes), set(edges)) == results[0],
-                lambda: "%s with the same global seed %d returned different hypergraphs: %s vs %s"
-                % (what, g0, _short(sorted(results[0][1])), _short(sorted(edges))), key="seed")
+        # no seed argument: nothing is claimed about reproducibility (the property speaks of
+        # "the same seed"; a generator that owns its random source would be correct too)
         ctx.label("global seed")
     pos = [k for k, c in requested.items() if c >= 1]
     ctx.label("sizes requested: %d" % len(requested))
@@ -509,9 +504,10 @@ def _check_added(what, before, after, size, num, ctx):
             "changed (%s)" % (what, num, len(new), _short(new), len(changed), _short(changed)),
             key="too-many")
     n_after = sum(1 for e in a if len(e) == size)
-    require(n_after >= num,
-            lambda: "%s: %d distinct hyperedge(s) of size %d were to be added but the result has "
-            "only %d of that size" % (what, num, size, n_after), key="too-few")
+    # (no lower bound: the statement says the functions ONLY add hyperedges of that size; how
+    # many of the drawn ones are new is not claimed)
+    if n_after < num:
+        ctx.label("fewer hyperedges of the size than requested draws")
     if changed:
         ctx.exclude("drawn hyperedge coincides with an existing one: its weight/metadata may be "
                     "updated (not compared)")
